@@ -1,5 +1,5 @@
 #!/usr/bin/env python3
-"""Apply each seeded change to /repo, run the units that cover the touched packages, undo the change.
+"""Apply each seeded change to a scratch worktree of /repo (HEAD), run the units that cover the touched packages, remove it.
 usage: run_seeds.py [seed ...]   (default: all)   -> appends to /verif/seeded/RESULTS.jsonl and prints a table
 Only the units (of every property) whose package list intersects the directories touched by the patch are run,
 through the normal `govc check` code path on a temporary root."""
@@ -37,8 +37,12 @@ def units_for(dirs):
     return sel
 
 BASE = {}
+import threading
+BASE_LOCK = threading.Lock()
+BASE_KEYLOCK = {}
 
-def run_units(pid, units):
+def run_units(pid, units, repo=None):
+    repo = repo or REPO
     tmp = tempfile.mkdtemp(prefix='seedroot.')
     os.makedirs(f'{tmp}/props')
     os.symlink(f'{ROOT}/contracts', f'{tmp}/contracts')
@@ -46,7 +50,7 @@ def run_units(pid, units):
         shutil.copy(f'{ROOT}/known_findings.jsonl', f'{tmp}/known_findings.jsonl')
     json.dump({'id': pid, 'units': units, 'assumptions': [], 'residual': ''}, open(f'{tmp}/props/{pid}.json', 'w'))
     env = dict(os.environ, GOVC_NOREPLAY=os.environ.get('GOVC_NOREPLAY', '1'))
-    p = subprocess.run([f'{ROOT}/bin/govc', 'check', '-property', pid, '-root', tmp, '-repo', REPO], capture_output=True, text=True, env=env)
+    p = subprocess.run([f'{ROOT}/bin/govc', 'check', '-property', pid, '-root', tmp, '-repo', repo], capture_output=True, text=True, env=env)
     shutil.rmtree(tmp, ignore_errors=True)
     viol = [re.sub(r'replay=\S+ ', '', l) for l in p.stdout.splitlines() if l.startswith('VIOLATION')]
     names = set()
@@ -57,8 +61,11 @@ def run_units(pid, units):
 
 def baseline(pid, units):
     key = pid + json.dumps(units, sort_keys=True)
-    if key not in BASE:
-        BASE[key] = run_units(pid, units)[2]
+    with BASE_LOCK:
+        lk = BASE_KEYLOCK.setdefault(key, threading.Lock())
+    with lk:
+        if key not in BASE:
+            BASE[key] = run_units(pid, units)[2]
     return BASE[key]
 
 def run(seed):
@@ -77,17 +84,21 @@ def run(seed):
         return res
     order = sorted(sel.keys(), key=lambda p: (p != own, p))
     base = {pid: baseline(pid, sel[pid]) for pid in order}   # violations already present on the unchanged tree
-    subprocess.run(['git', '-C', REPO, 'apply', patch], check=True)
+    wt = tempfile.mkdtemp(prefix='seedwt.')
+    os.rmdir(wt)
+    subprocess.run(['git', '-C', REPO, 'worktree', 'add', '--detach', '-q', wt, 'HEAD'], check=True)
+    subprocess.run(['git', '-C', wt, 'apply', patch], check=True)
     try:
         for pid in order:
-            rc, viol, names, summary = run_units(pid, sel[pid])
+            rc, viol, names, summary = run_units(pid, sel[pid], wt)
             new = sorted(n for n in names if n not in base[pid])
             res['checks'][pid] = {'exit': rc, 'violations': len(viol), 'new': new[:5], 'baseline': len(base[pid]),
                                   'first': [v[:300] for v in viol if any(n in v for n in new)][:3], 'summary': summary}
             if new and pid == own:
                 break  # detected under its own property
     finally:
-        subprocess.run(['git', '-C', REPO, 'apply', '-R', patch], check=True)
+        subprocess.run(['git', '-C', REPO, 'worktree', 'remove', '--force', wt])
+        shutil.rmtree(wt, ignore_errors=True)
     det = [p for p, c in res['checks'].items() if c['new']]
     res['detected_by'] = det
     return res
@@ -96,18 +107,27 @@ def main():
     seeds = sys.argv[1:] or sorted(os.listdir(f'{ROOT}/seeded'))
     seeds = [s for s in seeds if os.path.isdir(f'{ROOT}/seeded/{s}')]
     out = open(f'{ROOT}/seeded/RESULTS.jsonl', 'a')
-    for s in seeds:
-        r = run(s)
-        out.write(json.dumps(r) + '\n')
-        out.flush()
-        tag = 'DETECTED by ' + ','.join(r.get('detected_by', [])) if r.get('detected_by') else ('NOT-COVERED' if not r['checks'] else 'MISSED')
-        if 'error' in r:
-            tag = 'ERROR ' + r['error']
-        first = ''
-        for p in r.get('detected_by', []):
-            first = r['checks'][p]['first'][0] if r['checks'][p]['first'] else ''
-            break
-        print(f"{s:8s} {tag:28s} {first[:170]}", flush=True)
+    from concurrent.futures import ThreadPoolExecutor
+    par = int(os.environ.get('SEED_PAR', '3'))
+    lock = threading.Lock()
+    def one(s):
+        try:
+            r = run(s)
+        except Exception as e:
+            r = {'seed': s, 'error': repr(e), 'checks': {}}
+        with lock:
+            out.write(json.dumps(r) + '\n')
+            out.flush()
+            tag = 'DETECTED by ' + ','.join(r.get('detected_by', [])) if r.get('detected_by') else ('NOT-COVERED' if not r['checks'] else 'MISSED')
+            if 'error' in r:
+                tag = 'ERROR ' + r['error']
+            first = ''
+            for p in r.get('detected_by', []):
+                first = r['checks'][p]['first'][0] if r['checks'][p]['first'] else ''
+                break
+            print(f"{s:8s} {tag:28s} {first[:170]}", flush=True)
+    with ThreadPoolExecutor(max_workers=par) as ex:
+        list(ex.map(one, seeds))
 
 if __name__ == '__main__':
     main()
